@@ -29,6 +29,8 @@ CASES = {
     'interchange-project': (lambda r: do_loop_interchange(r, project_bounds=True),
                             "!$loki loop-interchange (l, i, j)\n do j = 1, 2\n  do l = 1, 2\n   do i = 1, 2\n    k = k + 1\n   end do\n  end do\n end do\n",
                             'generate_loop_bounds raises TypeError (index_map entry None - 1) for this order of three loops'),
+    'split-steptrunc': ('split', "do i = 4, 5, -2\n  k = k + 1\n end do\n",
+                        'zero-trip loop, but LoopRange.num_iterations = (5 - 4) / (-2) + 1 = 1: the split loops execute the body once'),
     # ---- C32
     'cp-zerotrip': (do_constant_propagation, "t = 1\n do i = 2, 1\n  t = 5\n end do\n k = t\n", 'k = 5: the body of a zero-trip loop is propagated'),
     'cp-carried': (do_constant_propagation, "t = 1\n do i = 1, 3\n  a(i) = t\n  t = 2\n end do\n", 'a(i) = 1 in every iteration although t is 2 from the second iteration on'),
@@ -48,6 +50,11 @@ def run(name):
     if trafo == 'call':
         text = "module md\ncontains\n" + text + "subroutine h(x)\n integer, intent(inout) :: x\n x = x + 1\nend subroutine h\nend module md\n"
         trafo = do_constant_propagation
+    if trafo == 'split':
+        def trafo(r):
+            from loki.ir import nodes as ir, FindNodes
+            from loki.transformations.loop_blocking import split_loop
+            split_loop(r, FindNodes(ir.Loop).visit(r.body)[0], 2)
     src = Sourcefile.from_source(text)
     r = src['s']
     print(f'==== {name}: {what}')
